@@ -27,7 +27,7 @@ THEOREMS = {
     'C14_visited_only_cuts': 'well-formed database and entry, ANY visited set: (1) what a lookup finds with a visited set it finds with every subset of it; (2) a value _find_field returns with any visited set is the reference value (it may be missing where the reference has one, never another value); (3) the same for _find_crossref_field on an entry that does not define the name itself',
     'C14_constants_match': '[table tie] the constants the model hard-codes (the and-separator of _find_person_field, the field name crossref of _find_crossref_entry / add_entry / the BST variable, the empty default of visited, bib_data=None, min_crossrefs=2) equal the literals regenerated from the source on this run (Gen/C14Consts.lean)',
     'C14_field_node': "well-formed database and entry: the template node field yields the reference value and FieldIsMissing with the message 'missing <name> in <key>' (format string regenerated from the source) exactly when no entry along the chain defines the name; in a context without bib_data it sees the entry's own fields and roles only; it agrees with templateField of C14_engines_agree up to the message",
-    'C14_u_inherits_nearest': 'NO hypothesis: for every key normaliser (the driver runs str.lower() of the interpreter, so keys / targets / field and role names may be any Unicode text), every database value, entry and name, the loop of the code with the empty visited set equals the reference walk of len(db)+1 entries through entries[crossref] (first entry that defines the name as field or role), and any longer walk gives the same (cycles never change the answer)',
+    'C14_u_inherits_nearest': "NO hypothesis: for every key normaliser (the driver runs str.lower() of the interpreter, so keys / targets / field and role names may be any Unicode text), every database value, entry and name, the loop of the code with the empty visited set equals the reference walk of len(db)+1 entries through entries[crossref] (first entry that defines the name as field or role), and any longer walk gives the same (cycles never change the answer) (what an entry defines = the model's `own`: field, else ' and '-joined role; the role clause itself rests on the ASCII theorems and the differential check)",
     'C14_u_own_missing_dangling': 'every key normaliser, database, entry, name: (1) [model wiring] an own field / role is returned whatever the database and the visited set; (2) without a database only the entry is asked; (3) missing iff no entry of the reference walk defines the name; (4) a crossref to a key the database lacks gives missing when the entry lacks the name, for every visited set',
     'C14_u_visited_only_cuts': 'every key normaliser, database, entry, name, visited set: what a lookup finds with a visited set it finds with every subset of it, and a value returned with any visited set is the reference value (Unicode twin of C14_visited_only_cuts, no hypothesis)',
     'C14_crossref_variable': 'well-formed database and entry: the BST variable crossref (interpreter Crossref.value) is the stored key of the reference parent, and missing exactly when there is no crossref field or the reference dangles (the value behind the oracle clause dangling)',
